@@ -676,7 +676,8 @@ package redis
 //@   prop C02 C04 C20
 //@   consumes req
 //@   requires req != nil && req.body != nil && len(req.body.Array) >= 1
-//@   modifies all
+//@   established (*upstream).getClient upstream.createClientCalls @pending-calls-wellformed forall k string :: smhas[u.createClientCalls][k] ==> typeis(smval[u.createClientCalls][k], "*createClientCall") && ifaceptr(smval[u.createClientCalls][k], "*createClientCall") != nil && ifaceptr(smval[u.createClientCalls][k], "*createClientCall").done != nil
+//@   modifies all, smhas, smval
 //@   ensures @argument-arrays-keep-their-length forall x *simpleRequest :: x != nil && x.body != nil ==> len(x.body.Array) == old(len(x.body.Array))
 //@   assume @ret forall x *simpleRequest :: x != nil && x.body != nil ==> len(x.body.Array) == old(len(x.body.Array))
 
@@ -685,6 +686,7 @@ package redis
 //@   requires @pending-calls-wellformed forall k string :: smhas[u.createClientCalls][k] ==> typeis(smval[u.createClientCalls][k], "*createClientCall") && ifaceptr(smval[u.createClientCalls][k], "*createClientCall") != nil && ifaceptr(smval[u.createClientCalls][k], "*createClientCall").done != nil
 //@   modifies all, smhas, smval
 //@   ensures @client-or-error result1 == nil ==> result0 != nil
+//@   ensures @pending-calls-wellformed forall k string :: smhas[u.createClientCalls][k] ==> typeis(smval[u.createClientCalls][k], "*createClientCall") && ifaceptr(smval[u.createClientCalls][k], "*createClientCall") != nil && ifaceptr(smval[u.createClientCalls][k], "*createClientCall").done != nil
 //@   ensures @no-finished-connect-attempt-stays-cached !old(smhas[u.createClientCalls][addr]) ==> !smhas[u.createClientCalls][addr]
 //@   assume @ret result1 == nil ==> result0 != nil
 
